@@ -30,6 +30,8 @@ func c11Check(c *hist.Case, r *evid.Rec) []evid.Disc {
 	inTransit := map[int]map[uint16]bool{} // per connection: identifiers of QoS>0 PUBLISH received and not completed
 	entitled := map[int]bool{}
 	leaked := map[int]bool{}
+	recSent := map[int]map[uint16]bool{}
+	everRec := map[int]bool{}
 	resent := map[int]bool{}
 	seenTag := map[int]bool{}
 	windowFull := false
@@ -59,9 +61,16 @@ func c11Check(c *hist.Case, r *evid.Rec) []evid.Disc {
 				}
 			case refmqtt.PUBACK, refmqtt.PUBCOMP:
 				delete(inTransit[s.Peer], s.Sent.PacketID)
+				delete(recSent[s.Peer], s.Sent.PacketID)
 			case refmqtt.PUBREC:
 				if s.Sent.ReasonCode >= 0x80 {
 					delete(inTransit[s.Peer], s.Sent.PacketID)
+				} else if s.A.Kind == "ack" {
+					if recSent[s.Peer] == nil {
+						recSent[s.Peer] = map[uint16]bool{}
+					}
+					recSent[s.Peer][s.Sent.PacketID] = true // known defect: this PUBREC costs the client one unit of ITS publish quota until PUBCOMP
+					everRec[s.Peer] = true
 				}
 			}
 		}
@@ -105,7 +114,11 @@ func c11Check(c *hist.Case, r *evid.Rec) []evid.Disc {
 				}
 			case refmqtt.DISCONNECT:
 				if o.P.ReasonCode == 0x93 {
-					ds = append(ds, evid.D("C11-well-behaved-client-disconnected-0x93", "step %d: the client kept its own unacknowledged QoS 1/2 publishes below the server's Receive Maximum %d, yet received DISCONNECT 0x93 (action: %s)", s.I, c.Cfg.ReceiveMaximum, s.A.String()))
+					sig := "C11-well-behaved-client-disconnected-0x93"
+					if len(recSent[o.Peer]) > 0 {
+						sig = "C11-disconnected-0x93-while-inbound-qos2-delivery-awaits-pubcomp"
+					}
+					ds = append(ds, evid.D(sig, "step %d: the client kept its own unacknowledged QoS 1/2 publishes below the server's Receive Maximum %d, yet received DISCONNECT 0x93 (action: %s)", s.I, c.Cfg.ReceiveMaximum, s.A.String()))
 				}
 			}
 		}
@@ -151,6 +164,9 @@ func c11Gen(rt *rapid.T) *hist.Case {
 	srv := uint16(rapid.IntRange(1, 4).Draw(rt, "server-recvmax"))
 	c.Cfg.ReceiveMaximum = srv
 	c.Cfg.ClientPIDBase = 1000 // identifier collisions between the directions are C10's subject
+	c.Cfg.Auth = "perm"
+	c.Cfg.Perm = &hist.Perm{Default: true}
+	c.Cfg.Perm.Set("c0", "u/deny", true, false)
 	exp := uint32(300)
 	con := hist.Action{Kind: "connect", Client: 0, Version: 5, Clean: false, Expiry: &exp}
 	if rapid.IntRange(0, 4).Draw(rt, "window") != 0 {
@@ -171,6 +187,10 @@ func c11Gen(rt *rapid.T) *hist.Case {
 			// the client's own publishes: QoS 1/2 only while it has fewer than the server's Receive Maximum unfinished
 			return hist.Action{Kind: "publish", Client: 0, Topic: "u/x", QoS: byte(rapid.IntRange(1, 2).Draw(rt, "oqos")), Limit: int(srv)}
 		case 9:
+			if rapid.Bool().Draw(rt, "denied") {
+				// a publish the broker refuses (write denied) and still has to acknowledge: it must not cost quota for ever
+				return hist.Action{Kind: "publish", Client: 0, Topic: "u/deny", QoS: byte(rapid.IntRange(1, 2).Draw(rt, "dqos")), Limit: int(srv)}
+			}
 			return hist.Action{Kind: "publish", Client: 0, Topic: "u/x", QoS: 0} // QoS 0 never counts
 		case 10:
 			return hist.Action{Kind: "pubrel", Client: 0, Index: rapid.IntRange(0, 3).Draw(rt, "ridx")}
@@ -189,7 +209,7 @@ func c11Gen(rt *rapid.T) *hist.Case {
 }
 
 func TestC11(t *testing.T) {
-	r := evid.New("C11", "rapid: a v5 client with Receive Maximum 1..4 (or absent) on a QoS 2 subscription against a server Receive Maximum 1..4; bursts of QoS 0/1/2 publishes towards the client and from the client; the client acknowledges in generated order and timing but never has more unfinished QoS 1/2 publishes of its own than the server's Receive Maximum (enforced by the executor), sends QoS 0 freely, optionally reconnects with session present; the history ends with the client acknowledging everything promptly; oracle: (a) unacknowledged QoS>0 PUBLISH packets on a connection never exceed the declared Receive Maximum, (b) no DISCONNECT 0x93 and no broker-side close, (c) after the prompt-acknowledgement phase every entitled QoS>0 message has been transmitted; non-trivial = the outbound window was full at least once; distinct by history")
+	r := evid.New("C11", "rapid: a v5 client with Receive Maximum 1..4 (or absent) on a QoS 2 subscription against a server Receive Maximum 1..4; bursts of QoS 0/1/2 publishes towards the client and from the client; the client acknowledges in generated order and timing but never has more unfinished QoS 1/2 publishes of its own than the server's Receive Maximum (enforced by the executor), sends QoS 0 freely, also publishes QoS 1/2 to a topic its write permission denies (refused but acknowledged), optionally reconnects with session present; the history ends with the client acknowledging everything promptly; oracle: (a) unacknowledged QoS>0 PUBLISH packets on a connection never exceed the declared Receive Maximum, (b) no DISCONNECT 0x93 and no broker-side close, (c) after the prompt-acknowledgement phase every entitled QoS>0 message has been transmitted; non-trivial = the outbound window was full at least once; distinct by history")
 	defer r.Finish(t)
 	if evid.ReplayMode() {
 		evid.Replay(t, r, replayPath(), c11Check)
